@@ -1463,6 +1463,42 @@ func TestAllCutSets(t *testing.T) {
 	propCuts.Enumerate(t, enumCases)
 }
 
+// enumVariants: every container variant the generator knows, at every level, for a few payload sizes.
+func enumVariants(yield func(Case) bool) {
+	type ev struct{ enc, v string }
+	var vs []ev
+	for _, v := range []string{"", "2", "3", "e", "2e", "3e", "h", "2h", "3eh"} {
+		vs = append(vs, ev{"gzip", v})
+	}
+	vs = append(vs, ev{"deflate", ""}, ev{"deflate", "zlib"}, ev{"snappy", ""})
+	for _, x := range vs {
+		for _, n := range []int{0, 1, 2, 3, 10, 1000, 70000} {
+			for lvl := 0; lvl < 4; lvl++ {
+				m := []Msg{{N: n, Z: true, Seed: uint64(n + lvl), Kind: "t", Lvl: lvl, Var: x.v}, {N: 4, Seed: 9}}
+				c := Case{CT: "application/grpc",
+					C: Dir{Enc: x.enc, Msgs: m, Cuts: []int{3, 9}, End: "last"},
+					S: Dir{Enc: x.enc, Msgs: m[:1], End: "trailers"}}
+				if !yield(c) {
+					return
+				}
+			}
+		}
+	}
+}
+
+var propVariants = &kit.Prop[Case]{
+	ID: "C11", Name: "container-variants",
+	Rule: "exhaustive over a fixed matrix: compressed message in every container variant the generator knows (gzip with 1, 2 or 3 members, with and without an empty last member, with FEXTRA/FNAME/FCOMMENT; raw and zlib-wrapped deflate; snappy framing) x payload sizes 0,1,2,3,10,1000,70000 x 4 compression levels, in both directions (336 cases). Non-trivial as for reframe.",
+	Run:  runCase, NonTrivial: nontrivial, Classes: classes,
+}
+
+func TestContainerVariants(t *testing.T) {
+	if kit.Race() {
+		t.Skip("sequential enumeration: nothing for the race detector")
+	}
+	propVariants.Enumerate(t, enumVariants)
+}
+
 func TestReplay(t *testing.T) {
-	kit.Replay(t, propReframe, propCuts, propStreams, propStreamKinds, propRelay, propRelayEdges)
+	kit.Replay(t, propReframe, propCuts, propStreams, propStreamKinds, propRelay, propRelayEdges, propVariants)
 }
